@@ -31,6 +31,25 @@ def gen_cases(tier, rng):
     return cases
 
 
+def gen_big_manifest_record(tier, rng):
+    """a version edit larger than one 32 KiB log block (two table boundary keys of 33..45 KB), so the
+    manifest record is written as several fragments = several file-system writes; every crash point,
+    also those between two fragments; recovery with reuse_log_files = true, then writes, a flush (one
+    more edit appended to whichever manifest is current) and a clean reopen, which must succeed and
+    hold everything (seeded change C02-eof-inside-record-counts-as-intact: a manifest ending inside
+    a fragmented record was reused and the next open rejected it)"""
+    cases = []
+    for i in range(1 if tier == "quick" else 8):
+        n1, n2 = rng.randrange(33000, 45000), rng.randrange(33000, 45000)
+        k1, k2 = "x" + "61" * n1, "x" + "62" * n2
+        cfg = "4194304:2097152:1024:1"
+        v = lambda: "x%02x%02x" % (rng.randrange(256), rng.randrange(256))
+        toks = ["cm%d" % i, cfg, "Px60=" + v(), "P%s=%s" % (k1, v()), "P%s=%s" % (k2, v()), "C-:-", "Px63=" + v()]
+        post = [cfg, "Px7a7a=" + v(), "C-:-", "Px7a7b=" + v()]
+        cases.append("%s # %s # all" % (" ".join(toks), " ".join(post)))
+    return cases
+
+
 def corpus():
     import os
     d = os.path.join(lib.VERIF, "corpus", "C02")
@@ -52,7 +71,7 @@ def gen_proto(tier, rng):
 
 
 def suites(tier, seed, rng):
-    return [crash.CrashSuite(corpus() + gen_cases(tier, rng), WANT),
+    return [crash.CrashSuite(corpus() + gen_cases(tier, rng) + gen_big_manifest_record(tier, rng), WANT),
             recover.RecoverSuite(gen_recover(tier, rng)),
             proto.ProtoSuite(gen_proto(tier, rng)),
             codec.CodecSuite("codec", codec.gen(tier, rng, ("B",)), lambda i, s, c: True),
